@@ -390,7 +390,9 @@ CmdDoneViol(ev) ==
                  \/ (env.cmdflow # {} /\ SyncRec(ev, i).flows = pre[i].flows \ {x \in pre[i].flows : ToString(x) \in env.cmdflow}))
        \cup Chk("C30_OthersUnchanged",
               \A i \in DOMAIN pre \ ids :
-                 IF i \in SyncIds(ev) THEN SyncRec(ev, i).outs = pre[i].outs /\ SyncRec(ev, i).flows = pre[i].flows
+                 \* (the command ends with the usual runahead release: a released task spawns its next parentless
+                 \*  instance, and if that is already in the pool the flows merge - other tasks never lose a flow)
+                 IF i \in SyncIds(ev) THEN SyncRec(ev, i).outs = pre[i].outs /\ pre[i].flows \subseteq SyncRec(ev, i).flows
                                              /\ SyncRec(ev, i).st = pre[i].st
                  \* gone from the pool: only a waiting child all of whose satisfied prerequisites were
                  \* naturally satisfied by the removed instances
